@@ -1649,7 +1649,7 @@ pub fn bookkeeping(seed: u64) -> Plan {
                 6 => Act::Send(Msg::Interested),
                 7 => Act::Send(Msg::NotInterested),
                 8 | 9 => Act::Gain(r.below(n as u64) as u32),
-                10 if r.chance(1, 6) => Act::Send(Msg::Have(n as u32)),
+                10 if r.chance(1, 3) => Act::Send(Msg::Have(n as u32)),
                 10 => Act::Send(Msg::Bitfield(crate::codec::bitfield_bytes(&peer.has))),
                 _ => Act::Send(Msg::KeepAlive),
             };
@@ -1767,6 +1767,25 @@ pub fn choking(seed: u64) -> Plan {
             peer.script.push(step(When::At(3000 + q * period), Act::RequestOwned(1)));
         }
         p.peers.push(peer);
+    }
+    // a peer that never declares interest and keeps re-sending its bitfield, in bursts around the
+    // instants of the 10 s rotation: the rotation chokes it (no interest) while a bitfield of its
+    // is waiting for the manager, and that bitfield earns it a free slot again
+    if Rng64::sub(seed, "choking-bitfield-repeater").chance(1, 3) {
+        let mut h = Rng64::sub(seed, "choking-bitfield-repeater-plan");
+        if let Some(peer) = p.peers.iter_mut().find(|x| x.listed && x.has.iter().any(|b| *b) && x.dial_in.is_empty()) {
+            peer.script.retain(|s| !matches!(s.act, Act::Send(Msg::Interested) | Act::Send(Msg::NotInterested) | Act::RequestOwned(_) | Act::Stall(_)));
+            peer.net = NetPlan::default();
+            peer.accept_delay = 1;
+            let bf = crate::codec::bitfield_bytes(&peer.has);
+            for k in 2..=9u64 {
+                let from = h.range(10, 25);
+                for d in 0..(from + 12) {
+                    let t = (10_000 * k + d).saturating_sub(from);
+                    peer.script.push(step(When::At(t), Act::Send(Msg::Bitfield(bf.clone()))));
+                }
+            }
+        }
     }
     let mut names: Vec<String> = p.peers.iter().filter(|x| x.listed).map(|x| x.name.clone()).collect();
     r.shuffle(&mut names);
